@@ -209,6 +209,19 @@ addenda10 = {'C03': ' Every length 4-40 over three symbols; lists of 8, 9, 10, 1
 for k, v in addenda10.items():
     e = checks[k]
     checks[k] = (e[0], e[1], e[2] + v, e[3], e[4])
+addenda11 = {'C03': ' Drop(0, l) and DropLast(0, l) return l.',
+ 'C04': ' A result may be the receiver itself but not an argument (result-is-the-argument).',
+ 'C07': ' Several goroutines Poll at once on 0, 1 and 2 queued values (ChannelQueue and BufferedChannelQueue): nobody blocks, every value goes to one of them.',
+ 'C08': ' A ConcurrentQueue over a BufferedChannelQueue: three values put, three taken in order.',
+ 'C09': ' A panic handler that schedules a follow-up job on its own pool and waits until it has started.',
+ 'C11': ' Handlers set and then reset to nil (ObserveOn(nil) / SubscribeOn(nil)).',
+ 'C12': ' An actor that closes itself from its effect while other senders are submitting.',
+ 'C14': ' Targets started only after 2, 6 and 7 requests are queued; YieldFromIO of IOs carrying the payload table (nil, typed nil, zero values), with and without an observe handler.',
+ 'C16': ' A re-entrant f (nested PMap): 2x1 exhaustively; thorough tier: 1100 outer goroutines, default schedule (declared smoke run).',
+ 'C17': ' A stub transport that rewrites and appends header values in place; an empty response body (the deserializer is still called, its error surfaced).'}
+for k, v in addenda11.items():
+    e = checks[k]
+    checks[k] = (e[0], e[1], e[2] + v, e[3], e[4])
 
 not_yet = "check not built yet in this round (see DESIGN.md §9 build order); no claim made"
 
